@@ -11,7 +11,10 @@ Scn(m) == LET c == Cells[(m % 5) + 1] IN
    \* all 256 byte values (only where no tty sits in the path: telnet, standard); the peer starts talking before Open has returned (early);
    \* at Close the peer has stopped answering (hung)
    binary |-> (c[1] # "system") /\ Below(3, m, 6) = 0, \* (a telnet peer that talks during the negotiation phase is C15's subject: there 0xFF is protocol, so no binary payload then)
-   early |-> Below(2, m, 7) = 0 /\ ~(c[1] = "telnet" /\ Below(3, m, 6) = 0), hung |-> Below(3, m, 8) = 0]
+   early |-> Below(2, m, 7) = 0 /\ ~(c[1] = "telnet" /\ Below(3, m, 6) = 0), hung |-> Below(3, m, 8) = 0,
+   \* a telnet peer opens with option negotiation (DO / WILL / DONT of several options) in front of its data: the commands and
+   \* the client's answers are protocol, not data - nothing of them may show up in either byte stream
+   nego |-> c[1] = "telnet" /\ Below(3, m, 6) # 0 /\ Below(3, m, 9) # 0]
 Init == n = 0
 Next == n < Count /\ n' = n + 1 /\ PrintT("SCN " \o ToJson(Scn(n)))
 Spec == Init /\ [][Next]_n
